@@ -9,7 +9,7 @@ EXTENDS TestifyMock
 
 Trace == ndJsonDeserialize("trace.ndjson")
 VARIABLE l
-tvars == <<cls, exps, calls, nc, done, failed, last, hist, l>>
+tvars == <<cls, exps, calls, nc, done, nby, byunmet, failed, last, hist, l>>
 
 Ev == Trace[l]
 IsEvent(e) == l <= Len(Trace) /\ Trace[l].op = e /\ l' = l + 1
@@ -31,23 +31,23 @@ ReplyOK(want, got) == Strict(want, got) \/ (want.lenient /\ got.kind = "panic" /
 Report(rec) == PrintT(<<"MISMATCH", ToJson(rec)>>) /\ TLCSet(1, TLCGet(1) + 1)
 
 TraceInit == /\ cls = [id |-> "", names |-> << >>, pk |-> << >>, vk |-> "none", rk |-> << >>, unroll |-> "unset", nm |-> 1, gen |-> FALSE]
-             /\ exps = << >> /\ calls = {} /\ nc = 0 /\ done = FALSE /\ failed = FALSE /\ last = [op |-> "init"] /\ hist = << >>
+             /\ exps = << >> /\ calls = {} /\ nc = 0 /\ done = FALSE /\ failed = FALSE /\ nby = 0 /\ byunmet = FALSE /\ last = [op |-> "init"] /\ hist = << >>
              /\ l = 1
              /\ TLCSet(1, 0)
 
 TReset == /\ IsEvent("reset")
           /\ cls' = Ev.class
-          /\ exps' = << >> /\ calls' = {} /\ nc' = 0 /\ done' = FALSE /\ failed' = FALSE
+          /\ exps' = << >> /\ calls' = {} /\ nc' = 0 /\ done' = FALSE /\ failed' = FALSE /\ nby' = 0 /\ byunmet' = FALSE
           /\ UNCHANGED <<last, hist>>
 
 TExpect == /\ IsEvent("expect")
            /\ exps' = Append(exps, [m |-> Ev.m, ms |-> Ev.ms, style |-> Ev.style, rets |-> Ev.rets, rem |-> Ev.rem, total |-> 0])
-           /\ UNCHANGED <<cls, calls, nc, done, failed, last, hist>>
+           /\ UNCHANGED <<cls, calls, nc, done, nby, byunmet, failed, last, hist>>
 
 \* the test's own t.Errorf (the recording TestingT reports Failed() from here on)
 TUserErrorf == /\ IsEvent("usererrorf")
                /\ failed' = TRUE
-               /\ UNCHANGED <<cls, exps, calls, nc, done, last, hist>>
+               /\ UNCHANGED <<cls, exps, calls, nc, done, nby, byunmet, last, hist>>
 
 TCall == /\ IsEvent("call")
          /\ LET as == Packed(cls, Ev.f, Ev.v)
@@ -62,19 +62,24 @@ TCall == /\ IsEvent("call")
                                dev |-> Dev(cls, exps, Ev.m, Ev.f, Ev.v)])
                /\ failed' = (failed \/ i = 0)
          /\ nc' = nc + 1
-         /\ UNCHANGED <<cls, done, last, hist>>
+         /\ UNCHANGED <<cls, done, nby, byunmet, last, hist>>
 
 TCleanup == /\ IsEvent("cleanup")
-            /\ LET want == ContractCleanup(exps, calls) IN
+            /\ LET want == CleanupWith(byunmet, ContractCleanup(exps, calls)) IN
                IF (want = "yes" => Ev.reply.reported) /\ (want = "no" => ~Ev.reply.reported) /\ Ev.reply.ncleanups >= 1
                THEN TRUE
                ELSE Report([at |-> l, case |-> Ev.case, step |-> Ev.step, op |-> "cleanup", matched |-> 0, style |-> "",
-                            expect |-> want, impl |-> ImplCleanup(exps, calls), dev |-> "none"])
+                            expect |-> want, impl |-> (byunmet \/ ImplCleanup(exps, calls)), dev |-> "none"])
             /\ done' = TRUE
-            /\ UNCHANGED <<cls, exps, calls, nc, failed, last, hist>>
+            /\ UNCHANGED <<cls, exps, calls, nc, nby, byunmet, failed, last, hist>>
 
 \* an "error" event (the driver could not perform the step) matches no action: the trace is rejected there
-TraceNext == TReset \/ TExpect \/ TUserErrorf \/ TCall \/ TCleanup
+TBystander == /\ IsEvent("bystander")
+              /\ nby' = nby + 1
+              /\ byunmet' = (byunmet \/ Ev.kind = "unmet")
+              /\ UNCHANGED <<cls, exps, calls, nc, done, failed, last, hist>>
+
+TraceNext == TBystander \/ TReset \/ TExpect \/ TUserErrorf \/ TCall \/ TCleanup
 
 TraceSpec == TraceInit /\ [][TraceNext]_tvars
 
